@@ -45,9 +45,9 @@ func init() {
 			"model.(*AlarmSignDetails).parse", "model.(*StatusSignDetails).parse", "model.(*T0x0200LocationItem).parse",
 			"model.(*T0x0200AdditionDetails).parseExtendVehicleStatus", "model.(*T0x0200AdditionDetails).parseIOStatus",
 			"model.(*T0x0200AdditionDetails).decode", "model.(*T0x0200AdditionDetails).parse",
-			"utils.BCD2Time",
+			"utils.BCD2Time", "model.(*T0x0704).Parse",
 		},
-		Decided: "offsets and byte order of the 28-byte base block, the BCD time rendering, each of the 32 alarm flags, 21 single-bit status flags, " +
+		Decided: "in a 0x0704 batch every item is decoded into its own record (the additional-information table of the item being appended is not the table of an earlier item); offsets and byte order of the 28-byte base block, the BCD time rendering, each of the 32 alarm flags, 21 single-bit status flags, " +
 			"15 extended-vehicle-signal flags and 2 IO flags as 'field is true exactly when its bit is set', for all inputs and any prior receiver state",
 		Undecided: []string{"the two-bit Cargo field is not claimed (the property covers single-bit flags)"},
 	})
